@@ -518,6 +518,7 @@ def shards(tier, seed):
     out += [("filehdr", name) for name in ("Range", "If-Range", "If-None-Match", "If-Modified-Since")]
     out += [("hostdispatch", k, 4) for k in range(4)]
     out += [("overlap", label) for label in ("wsgi:oneobject", "asgi:oneobject", "zerocopy:oneobject")]
+    out += [("python-O", ("paths", k, 4)) for k in range(4)] + [("python-O", ("hostdispatch", 0, 4)), ("python-O", ("vanished",))]
     return out
 
 
@@ -536,6 +537,10 @@ class Tree:
 
 def run_shard(desc, tier):
     r = R()
+    if desc[0] == "python-O":
+        # the same family in an interpreter that runs with assert statements compiled away
+        from ..core import fresh
+        return fresh.optimized(__name__, tuple(desc[1]), tier)
     kind = desc[0]
     if kind == "header":
         _, name, bi = desc
@@ -702,6 +707,10 @@ def finish(merged, tier):
 
 
 def replay(w):
+    import sys as _sys
+    if w.get("optimize") and not _sys.flags.optimize:
+        from ..core import fresh
+        return fresh.replay_optimized(__name__, w)
     r = R()
     k = w["kind"]
     if k == "header":
